@@ -11,7 +11,7 @@ return of the protected value (E3 over interpreter paths; CFG for the loop in PG
 import ast
 import re
 
-from sa.interp import Interp, Scenario, Sym, Const, Bytes, render
+from sa.interp import sl, Interp, Scenario, Sym, Const, Bytes, render
 from sa.loader import AnalysisError, dotted
 from sa.cfg import CFG, calls_in
 from sa import guards
@@ -70,14 +70,14 @@ def seipd(rep, prog):
 
     def iv_sides(a, b):
         a2, b2 = a.replace(PT, 'PT'), b.replace(PT, 'PT')
-        return a2 == 'SLICE(SLICE(PT;;%s);-2;)' % BS and b2 == 'SLICE(SLICE(PT;%s;);;2)' % BS
+        return a2 == sl('PT', ('', BS), (-2, '')) and b2 == sl('PT', (BS, ''), ('', 2))
     guards.check_guard(rep, 'C04.2', 'IntegrityProtectedSKEDataV1.decrypt', outs, iv_sides,
                        'the prefix repetition check (octets bs-2..bs == octets bs..bs+2)', fi.where)
     # the value returned is the checked plaintext
     for s in outs:
         if s.raised is None:
             r = render(s.ret).replace(PT, 'PT')
-            rep.check(r == 'SLICE(SLICE(PT;%s;);2;)' % BS, 'C04.1', 'IntegrityProtectedSKEDataV1.decrypt', 'return %s' % r,
+            rep.check(r == sl('PT', (BS, ''), (2, '')), 'C04.1', 'IntegrityProtectedSKEDataV1.decrypt', 'return %s' % r,
                       'the value returned must be the plaintext that was checked, minus the %s+2 prefix octets' % BS, where=fi.where,
                       expected='PT[bs+2:]', found=r)
 
@@ -99,8 +99,8 @@ def pkesk(rep, prog):
         if M is None:
             raise AnalysisError('PKESessionKeyV3.decrypt_sk no longer calls self.ct.decrypt')
         KS = '(SymmetricKeyAlgorithm(M[0]).key_size // 8)'
-        KEY = 'SLICE(SLICE(M;1;);;%s)' % KS
-        CHK = 'SLICE(SLICE(SLICE(M;1;);%s;);;2)' % KS
+        KEY = sl('M', (1, ''), ('', KS))
+        CHK = sl('M', (1, ''), (KS, ''), ('', 2))
 
         def sides(a, b, _M=M):
             a2, b2 = a.replace(_M, 'M'), b.replace(_M, 'M')
